@@ -111,7 +111,7 @@ func Payload(t *rapid.T, label string, max int) []byte {
 	if max < 16 {
 		max = 16
 	}
-	class := rapid.IntRange(0, 11).Draw(t, label+"_class")
+	class := rapid.IntRange(0, 13).Draw(t, label+"_class")
 	size := func(lo, hi int) int {
 		if hi > max {
 			hi = max
@@ -173,6 +173,36 @@ func Payload(t *rapid.T, label string, max int) []byte {
 			return pseudo(rapid.Uint32().Draw(t, label+"_seed"), n, 5)
 		}
 		return pseudo(rapid.Uint32().Draw(t, label+"_seed"), rapid.IntRange(65537, 90000).Draw(t, label+"_n"), 31)
+	case 12, 13: // "book": lines drawn from a small pool, so that long matches occur at every distance of the
+		// 32 KiB window and (when the caller allows > 32 KiB) across every lap of a ring buffer of history
+		n := size(200, 6000)
+		if max >= 70000 && rapid.IntRange(0, 2).Draw(t, label+"_big") > 0 {
+			n = rapid.IntRange(33000, max).Draw(t, label+"_bign")
+		}
+		seed := rapid.Uint32().Draw(t, label+"_seed")
+		npool := rapid.SampledFrom([]int{40, 200, 1000}).Draw(t, label+"_pool")
+		x := uint64(seed)*2862933555777941757 + 3037000493
+		next := func() uint64 {
+			x = x*6364136223846793005 + 1442695040888963407
+			return x >> 33
+		}
+		pool := make([][]byte, npool)
+		for i := range pool {
+			l := 8 + int(next()%300)
+			ln := make([]byte, l)
+			for k := range ln {
+				ln[k] = byte(next())
+			}
+			pool[i] = ln
+		}
+		out := make([]byte, 0, n+400)
+		for len(out) < n {
+			out = append(out, pool[next()%uint64(npool)]...)
+			if next()%4 == 0 {
+				out = append(out, byte(next())) // shifts alignment
+			}
+		}
+		return out[:n]
 	default: // small structured
 		n := size(1, 300)
 		out := make([]byte, n)
@@ -589,7 +619,7 @@ func DrawPlan(t *rapid.T, label string, n int) Plan {
 		p.DstStep = uint32(rapid.SampledFrom([]int{1, 2, 3, 7, 100, 4096}).Draw(t, label+"_dstep"))
 	default:
 		p.DstMode = 2
-		p.DstStep = uint32(rapid.SampledFrom([]int{1, 1, 2, 3, 7, 100, 258, 4096, 40000}).Draw(t, label+"_dstep"))
+		p.DstStep = uint32(rapid.SampledFrom([]int{1, 1, 2, 3, 7, 100, 258, 512, 1024, 4096, 4096, 8192, 16384, 32768, 40000}).Draw(t, label+"_dstep"))
 	}
 	if n > 3000 && p.DstMode != 0 && p.DstStep < 64 {
 		p.DstStep += 64
